@@ -3,14 +3,14 @@ CONSTANTS Ctx <- McCtx
  Init0 <- McInit
  Gas <- McGas
  Devs = {"Dev_BoxSubGasMinted"}
- Kinds = {"xfer", "box"}
+ Kinds = {"xfer", "box", "reg", "topup", "unreg"}
  From = {"a1", "a2"}
  XTo = {"a1", "a2", "KR", "KS", "KD", "KO"}
  XAmt = {100, 1000}
  Payers = {"a4"}
  Voters = {}
- Cands = {}
- RegAmt = {}
+ Cands = {"a3", "a4"}
+ RegAmt = {50, 300}
  AFrom = {}
  ATo = {}
  AAmt = {}
